@@ -986,7 +986,7 @@ def builder_columns(chk, src):
             return None
         it = SymInterp(src, resolver, builtins)
         # interpret only the construction loop (the second loop assembles symbolic matrices and is checked by `layout`)
-        env = {"tn": tn, "terms": "terms", "const": 0, "algo": "qr"}
+        env = it.new_env(fi, tn=tn, terms="terms", const=0, algo="qr")
         try:
             body = fi.node.body
             for s in body:
@@ -1571,13 +1571,13 @@ def ttno_layout(chk, src):
             it0 = SymInterp(src, None, {"Model": lambda basis, terms_: Sym("model", dof_to_siteidx="d2s"), "chain": lambda *a_: [x for p_ in a_ for x in p_],
                                         "np": Sym("np", zeros=zeros, ndenumerate=lambda m: list(m.entries), eye=lambda n: _Elem([], None),
                                                   tensordot=lambda a_, b_, axes=None: _Elem(a_.blocks + [b_], a_.factor), iscomplexobj=lambda x: False,
-                                                  moveaxis=lambda t, a_, b_: ("moved", t, a_, b_))})
+                                                  moveaxis=lambda t, a_, b_: ("permuted", t, _perm_moveaxis(t.ndim, a_, b_)), transpose=lambda t, axes=None: t.transpose(axes))})
             res = it0.call_function(fi, [[_BasisSym(f"b{j}", "B", f"p{j}") for j in range(k)], mo, "dtype"])
             want = [f"in{c}" for c in range(nch)] + [x for j in range(k) for x in (f"p{j}", f"p{j}")] + ["out"]
-            if not (isinstance(res, tuple) and res[0] == "moved" and made and res[1] is made[-1]):
-                bad.append(f"{nch} children, {k} basis sets: the accumulated tensor is not returned through one axis move")
+            if not (isinstance(res, tuple) and res[0] == "permuted" and made and res[1] is made[-1]):
+                bad.append(f"{nch} children, {k} basis sets: the accumulated tensor is not returned through one axis permutation")
                 continue
-            got = _mv(made[-1].__dict__["made_shape"], res[2], res[3])
+            got = [made[-1].__dict__["made_shape"][a_] for a_ in res[2]]
             if got != want:
                 bad.append(f"{nch} children, {k} basis sets: axes {got}, expected {want}")
     chk.ob("layout", "symbolic_mo_to_numeric_mo_general: children, (row, col)*, parent", not bad, fi.where, bad[:2] or "12 (arity, basis-count) combinations", "children..., (p, p) per basis set..., parent",
@@ -1595,12 +1595,15 @@ def ttno_layout(chk, src):
         acc = _Acc()
 
         def tensordot(a_, b_, axes=None):
-            if not isinstance(a_, _Elem) or axes != 1:
+            # the running product (.., 1) is chained with the next local matrix (1, row, column, 1): last axis with first axis
+            last = 1 + 2 * len(a_.blocks) if isinstance(a_, _Elem) else None
+            one = axes == 1 or (isinstance(axes, (list, tuple)) and len(axes) == 2 and [list(x) if isinstance(x, (list, tuple)) else [x] for x in axes] in ([[-1], [0]], [[last], [0]]))
+            if not isinstance(a_, _Elem) or not one:
                 raise AnalysisError("tensordot in symbolic_mo_to_numeric_mo_general outside the fragment")
             return _Elem(a_.blocks + [b_], a_.factor)
         it.builtins.update({"Model": lambda basis, terms_: Sym("model", dof_to_siteidx="dof_to_siteidx"), "chain": lambda *a_: [x for p_ in a_ for x in p_],
-                            "np": Sym("np", zeros=lambda shape, dtype=None: acc, ndenumerate=lambda m: list(m.entries), eye=lambda n: _Elem([], None),
-                                      tensordot=tensordot, iscomplexobj=lambda x: False, moveaxis=lambda t, a_, b_: ("moved", t))})
+                            "np": Sym("np", zeros=lambda shape, dtype=None, acc=acc: (acc.__dict__.__setitem__("made_shape", list(shape)), acc)[1], ndenumerate=lambda m: list(m.entries), eye=lambda n: _Elem([], None),
+                                      tensordot=tensordot, iscomplexobj=lambda x: False, moveaxis=lambda t, a_, b_: ("permuted", t), transpose=lambda t, axes=None: ("permuted", t))})
         it.call_function(fi, [bsets, mo, "dtype"])
         for (idx, terms_here) in mo.entries:
             got = acc.cells.get(idx, [])
@@ -1652,7 +1655,10 @@ def ttno_layout(chk, src):
             return _P(self.items + [o if isinstance(o, str) else repr(o)])
     probs3 = []
     for nch, k in ((0, 1), (0, 2), (1, 1), (2, 1), (2, 2), (3, 2)):
-        it3 = SymInterp(src, None, {"np": Sym("np", full=lambda shape, fill, dtype=None: _GridN(shape), ndenumerate=lambda g: [(i, g.cells[i]) for i in sorted(g.cells)])})
+        import itertools as _it
+        it3 = SymInterp(src, None, {"np": Sym("np", full=lambda shape, fill, dtype=None: _GridN(shape), ndenumerate=lambda g: [(i, g.cells[i]) for i in sorted(g.cells)],
+                                              ndindex=lambda *shape: list(_it.product(*[range(d) for d in (shape[0] if len(shape) == 1 and isinstance(shape[0], (list, tuple)) else shape)])),
+                                              empty=lambda shape, dtype=None: _GridN(shape))})
         in_ops_list = [[f"c{c}op{j}" for j in range(2)] for c in range(nch)]
         prim = {j: f"prim{j}" for j in range(5)}
         comp = []
@@ -1808,9 +1814,22 @@ class _Elem(Sym):
 
 
 class _Acc(Sym):
+    """accumulation array of the numeric conversion; an axis permutation of it (moveaxis / transpose / .T spelled any way) is ("permuted", array, permutation)"""
     def __init__(self):
         super().__init__("mo_tensor")
         self.cells = {}
+
+    @property
+    def ndim(self):
+        return len(self.__dict__.get("made_shape", ()))
+
+    @property
+    def shape(self):
+        return tuple(self.__dict__.get("made_shape", ()))
+
+    def transpose(self, *axes):
+        axes = list(axes[0]) if len(axes) == 1 and isinstance(axes[0], (list, tuple)) else list(axes)
+        return ("permuted", self, [a % self.ndim for a in axes])
 
     def __getitem__(self, i):
         return _Cell(list(self.cells.get(i, [])))
@@ -1841,6 +1860,12 @@ def _postorder(root):
         out.append(x)
     rec(root)
     return out
+
+
+def _perm_moveaxis(n, a, b):
+    order = [k for k in range(n) if k != a % n]
+    order.insert(b % n, a % n)
+    return order
 
 
 def _mv(t, a, b):
@@ -2124,12 +2149,13 @@ def chain_conversion(chk, src, n=4):
             raise AnalysisError(f"chain site {i!r}")
 
     reads = []
-    it = SymInterp(src, None, {})
+    from .chain_rules import class_resolver
+    it = SymInterp(src, class_resolver(src, {"Mps": "renormalizer/mps/mps.py"}), {})
     it.max_depth = 12
     # the chain as handed in: arbitrary centre c (labels left of c are 'L', right of c are 'R'), not canonical
     for c in (0, 1, n - 1):
         reads.clear()
-        mps = Chain("mps", state="any", qnidx=c, site_num=n, qntot=QTot("qntot"), qn=[QTag("L" if b <= c else "R", b) for b in range(n + 1)],
+        mps = Chain("mps", _cls="Mps", state="any", qnidx=c, site_num=n, qntot=QTot("qntot"), qn=[QTag("L" if b <= c else "R", b) for b in range(n + 1)],
                     model=Sym("model", basis=[f"b{k}" for k in range(n)], ham_terms="ham_terms"))
 
         def ensure_left(mps=mps):
